@@ -78,6 +78,18 @@ def strategy_(draw, tier):
       pname = {'things:h1': 'e', 'things:mutdef': 'c', 'things:mutdef1': 'other', 'things:mutnest': 'other', 'things:po2': 'a', 'things:po3': 'a', 'things:DCPlain': 'v'}.get(name, 'child')
       root['kw'][pname] = i + 1
     recipe['root'] = i + 2
+  if t == 'materialize_defaults' and draw(st.booleans()):
+    # two nodes that leave the same mutable default unset (they share the default object)
+    nodes = recipe['nodes']
+    fn = draw(st.sampled_from(['things:mutdef1', 'things:mutnest']))
+    mk = lambda uid: {'k': 'B', 'bt': 'Config', 'fn': {'kind': 'sym', 'name': fn}, 'pos': [],
+                      'kw': {'c': {'leaf': uid}}, 'edits': []}
+    nodes.append(mk('uidM1'))
+    nodes.append(mk('uidM2'))
+    n = len(nodes)
+    nodes.append({'k': 'B', 'bt': 'Config', 'fn': {'kind': 'sym', 'name': 'things:h1'}, 'pos': [],
+                  'kw': {'a': {'leaf': 'uidT'}, 'b': n - 2, 'c': n - 1, 'd': recipe['root']}, 'edits': []})
+    recipe['root'] = n
   case = {'t': t, 'recipe': recipe}
   if t == 'inline':
     case['ac'] = draw(st.sampled_from(['make_pair', 'make_nested', 'make_shared']))
